@@ -53,7 +53,12 @@ def _sami_leaf(s):
 def _check(parts, s):
     want = _collapse(s)
     if want == "":
-        return "" if all(_collapse(p) == "" for p in parts) else "text from nothing"
+        if not all(_collapse(p) == "" for p in parts):
+            return "text from nothing"
+        if s != "" and "\n" not in s and not (len(parts) == 1 and parts[0] != ""):
+            # blanks between two inline elements on one source line separate words: they must survive
+            return "inter-element space lost"
+        return ""
     if len(parts) != 1:
         return "node count"
     return "" if _collapse(parts[0]) == want else "words lost or changed"
@@ -125,6 +130,10 @@ def _public_dfxp(s):
     doc = ('<?xml version="1.0" encoding="utf-8"?><tt xml:lang="en" xmlns="http://www.w3.org/ns/ttml"><body><div>'
            '<p begin="1s" end="2s">' + escape(s) + '</p></div></body></tt>')
     if _collapse(s) == "":
+        if s != "" and "\n" not in s:
+            doc = doc.replace('<p begin="1s" end="2s">', '<p begin="1s" end="2s"><span tts:fontStyle="italic">a</span>').replace('</p>', '<span tts:fontStyle="italic">b</span></p>')
+            got = DFXPReader().read(doc).get_captions("en")[0].get_text()
+            return "" if got == "a b" else f"'a</span>{s}<span>b' read as {got!r}"
         return ""
     caps = DFXPReader().read(doc).get_captions("en")
     got = _collapse(caps[0].get_text()) if caps else ""
